@@ -572,6 +572,9 @@ class RngRecorder:
             elif e[0] == "choice":
                 ans.append(list(e[3]))
                 log.append(("choice", e[1], e[2]))
+            elif e[0] == "heur":
+                ans.append([e[1]])
+                log.append(("int", -2))
             else:
                 ans.append([])
                 log.append(("other",))
